@@ -16,7 +16,9 @@ func Map(v reflect.Value, f jtypes.Callable) (interface{}, error) {
 
 	v = forceArray(jtypes.Resolve(v))
 
-	var results []interface{}
+	// Note that the results must not be a nil slice. A nil
+	// slice is encoded as JSON null instead of an empty array.
+	results := []interface{}{}
 
 	argc := clamp(f.ParamCount(), 1, 3)
 
@@ -41,7 +43,9 @@ func Filter(v reflect.Value, f jtypes.Callable) (interface{}, error) {
 
 	v = forceArray(jtypes.Resolve(v))
 
-	var results []interface{}
+	// Note that the results must not be a nil slice. A nil
+	// slice is encoded as JSON null instead of an empty array.
+	results := []interface{}{}
 
 	argc := clamp(f.ParamCount(), 1, 3)
 
